@@ -397,7 +397,7 @@ func relayCase(c *vlib.Cases, engine, route string, stream bool, status int, bod
 		}
 		return stack.Behaviour{Kind: "ok", Status: 200, Headers: [][2]string{{"Content-Type", "application/json"}}, Body: []byte(chunkSeeds["openai"][0])}
 	})
-	s, err := stack.Start(stack.Opts{Engine: engine, Balancer: "priority", ModelDiscovery: true, EPs: []stack.EP{{Name: "R", Type: "openai", Priority: 1, Backend: b}}})
+	s, err := stack.Start(stack.Opts{Vary: stack.VaryFor("c20.relay", engine, route, stream, status, ct, how), Engine: engine, Balancer: "priority", ModelDiscovery: true, EPs: []stack.EP{{Name: "R", Type: "openai", Priority: 1, Backend: b}}})
 	if err != nil {
 		c.Emit(map[string]any{"kind": "relay", "impl": map[string]any{"start_err": err.Error()}})
 		return
@@ -440,7 +440,7 @@ func recoverWithBadListing(how string) map[string]any {
 		}
 		return 200, "\x00\x01 not json at all }{"
 	}
-	s, err := stack.Start(stack.Opts{Engine: "sherpa", Balancer: "priority", ModelDiscovery: true, EPs: []stack.EP{{Name: "R", Type: "openai", Priority: 100, Backend: b}}})
+	s, err := stack.Start(stack.Opts{Vary: stack.VaryFor("c20.recover", how), Engine: "sherpa", Balancer: "priority", ModelDiscovery: true, EPs: []stack.EP{{Name: "R", Type: "openai", Priority: 100, Backend: b}}})
 	if err != nil {
 		return map[string]any{"start_err": err.Error()}
 	}
